@@ -3,12 +3,34 @@
    an access outside it has the outcome Fault.  PROVED for ALL shapes: no operation changes the size of
    the allocation (every write of add_bytes / remove_bytes / the notification broadcast lands inside it);
    a pointer tree containing an address of another buffer fails check_pointers (swapped accessors are
-   reported no later than the end of the borrow, where the check runs).  PROVED for flat shapes: no Fault
+   reported no later than the end of the borrow, where the check runs; a STALE recorded inner pointer does not take part,
+   D26).  PROVED for every enum-free shape and histories of list operations at any nesting depth, failures included
+   (C03_general_...): the outcome is never Fault nor Panic, the allocation keeps its size, and the pointer assertions
+   hold in every reachable state.  PROVED for flat shapes (special case): no Fault
    and no pointer assertion in any history (C01_flat_run_refines yields Ok), growth beyond the allocation
    is refused before any byte moves.  That the Rust pointer arithmetic realises the model's offsets is the
    correspondence check with guard pages and canaries (partial label, DESIGN.md section 7). *)
 From SF Require Import Base.Prelude Gen.Generated Unsized.Types Unsized.Parse Unsized.Machine Unsized.Ops.
 From SF Require Import Unsized.Proofs.EncodeParse Unsized.Proofs.Mem Unsized.Proofs.Notify Unsized.Proofs.Flat.
+From SF Require Import Unsized.Proofs.Layout Unsized.Proofs.Path Unsized.Proofs.Resize Unsized.Proofs.History.
+
+(* any shape, any depth, any history with failures in it: every access of the run stays inside the allocation (the
+   outcome is Ok: neither Fault nor Panic), and the drop-time / debug pointer assertions hold at the end *)
+Theorem C03_general_no_fault_in_any_history :
+  forall ovf t h v s top pi0 v' l,
+    RepF pi0 t v s top -> m_refuse s <> 1 -> orunE (m_cap s) (m_refuse s) t v h = Some (v', l) ->
+    exists s' top', mrunE ovf t s top h = Ok (s', top', l) /\ top_check s' top' = true /\ m_len s' <= m_cap s'.
+Proof.
+  intros ovf t h v s top pi0 v' l R Hn Ho.
+  destruct (grunE_refines ovf t h v s top pi0 v' l R Hn Ho) as (s' & top' & pi' & Hrun & R').
+  exists s', top'. split; [exact Hrun|]. split; [exact (repf_top_check _ _ _ _ _ R')|].
+  pose proof (repf_cap _ _ _ _ _ R'). destruct R' as [_ _ _ _ Hl _ _]. lia.
+Qed.
+
+(* in a represented state the pointer assertions hold, whatever the lists of unsized elements remember *)
+Theorem C03_general_pointer_assertions_hold :
+  forall pi t v s top, RepF pi t v s top -> top_check s top = true.
+Proof. exact repf_top_check. Qed.
 
 Theorem C03_notify_stays_in_allocation :
   forall t p src c m p' m', notify t p src c m = Ok (p', m') -> zlen m' = zlen m.
